@@ -3,7 +3,7 @@
   written from the property text and *not* from the translators: the table "component at
   angular frequency w ↦ intended branch record".
 
-    resistor R            ↦ impedance  Z = R
+    resistor R            ↦ impedance  Z = R        (R = ∞, an open switch: an open circuit)
     conductance G         ↦ admittance Y = G
     impedance R + jX      ↦ impedance  Z = R + jX
     admittance G + jB     ↦ admittance Y = G + jB
@@ -44,6 +44,8 @@ def str? (c : Component) (k : String) : Option String :=
   | some (.str s) => some s
   | _ => none
 
+def isInf (c : Component) (k : String) : Bool := c.value.lookup k == some Val.inf
+
 def dist (a b : Rat) : Rat := if a < b then b - a else a - b
 
 /-- the phasor `A·(cos φ + j sin φ)` -/
@@ -62,8 +64,9 @@ def harmonicIndex? (w w0 wres : Rat) : Option Int :=
 
 /-- the intended element of component `c` at angular frequency `w` -/
 def elemOf (trig : Trig) (harm : Harm) (c : Component) (w wres : Rat) : Option (Elem GQ) :=
-  if c.kind = "resistor" then do
-    let R ← num? c "R"; some (.norton ⟨R, 0⟩ 0)
+  if c.kind = "resistor" then
+    if isInf c "R" then some openE
+    else do let R ← num? c "R"; some (.norton ⟨R, 0⟩ 0)
   else if c.kind = "conductance" then do
     let G ← num? c "G"; some (.thevenin ⟨G, 0⟩ 0)
   else if c.kind = "impedance" then do
